@@ -16,7 +16,7 @@ func init() {
 		Explanation: "Decides on every CFG path of the observer runner that the user callback is reached only after the hand state of that same table was passed through AsObserver, unless system mode is on or the path establishes that there is no hand state (R1); that the engine adapter hands its actor, and keeps, the address of a local that was filled by json.Unmarshal from the incoming table's own JSON — never the incoming pointer (R2); and that nothing reachable from the observer runner calls a player action of the adapter (R3). NOT decided: what AsObserver hides (pinned dependency, trusted).",
 		Rules: map[string]string{
 			"R1": "filter-before-emit on every path where a hand state may exist and system mode is off",
-			"R2": "adapter passes and keeps a fresh JSON round-trip copy of the incoming table",
+			"R2": "adapter passes and keeps a fresh JSON round-trip copy of the incoming table; the JSON copy is complete (every field reachable from Table round-trips)",
 			"R3": "observer runner has no write path to the engine",
 			"R4": "the actor package invokes only the player operations of the engine: no accessor hands an actor the engine's live table or hand state",
 		},
@@ -28,6 +28,7 @@ func init() {
 
 func checkC20(c *Ctx) {
 	p := c.P
+	checkCloneCompleteness(c, "R2")
 	// R4: the actor package never reads the engine's own state: the only TableEngine methods it
 	// invokes are the player operations (everything an actor sees comes from its private copy)
 	{
